@@ -12,12 +12,21 @@ type eNode struct {
 	where int // 1 Process, 2 Close, 3 Reopen
 	ctx   context.Context
 	calls int
+	// same: re-enter through the very pipeline the event is travelling in (once: the nested event passes straight through),
+	// as the gated filter does when it flushes an expired group of its own event type
+	same bool
 }
 
 func (n *eNode) reenter() {
 	n.calls++
 	// give a queued writer (if any) the chance to take its place in the lock queue
 	verifYield()
+	if n.same {
+		if n.calls == 1 {
+			n.b.Send(n.ctx, "t", "from-node")
+		}
+		return
+	}
 	n.b.Send(n.ctx, "other", "from-node")
 }
 
@@ -47,7 +56,7 @@ func H_C12_reentry() {
 	b, _ := NewBroker()
 	ctx := &vCtx{}
 	where := symLen(1, 3)
-	f := &eNode{typ: NodeTypeFormatter, b: b, where: where, ctx: ctx}
+	f := &eNode{typ: NodeTypeFormatter, b: b, where: where, ctx: ctx, same: nondetBool()}
 	s := &rNode{typ: NodeTypeSink}
 	b.RegisterNode("f", f)
 	b.RegisterNode("s", s)
